@@ -116,8 +116,8 @@ def run_config(rep, fx, cfg):
                       '%s: %s is written as %s but read as %s' % (short, pid, e['ty'], c['ty']), e['where'])
             rep.check(ok_m, 'R15.1', key + '/multiplicity', 'written %s, read %s' % (emult, c['mult']),
                       '%s: %s is written with multiplicity "%s" but read as "%s" (mandatory/optional/list mismatch)' % (short, pid, emult, c['mult']), e['where'])
-            for x in sp[pid]:
-                rep.check(not x['value_conds'], 'R15.1', key + '/presence-only@%s' % x['where'].rsplit(':', 1)[-1] if x['value_conds'] else key + '/presence-only',
+            for xi, x in enumerate(sp[pid]):
+                rep.check(not x['value_conds'], 'R15.1', key + ('/presence-only#%d' % (xi + 1) if x['value_conds'] and len(sp[pid]) > 1 else '/presence-only'),
                           'emission depends only on presence / variant of the field',
                           '%s: whether %s is written depends on a VALUE (%s): for that value the parameter is missing on the wire and the field does not survive '
                           '(defaults are not re-created by the reader)' % (short, pid, '; '.join(x['value_conds'])), x['where'])
@@ -137,6 +137,9 @@ def run(rep, facts, tier):
     rep.rule('R15.1', 'PID tables agree: every parameter written is read with the same wire type and a compatible multiplicity and vice versa; whether a parameter is written depends only '
                       'on the presence / variant of its field, never on its value')
     rep.rule('R15.2', 'defaults: absent optional parameters decode to the defaults RTPS prescribes (expects_inline_qos = false, manual_liveliness_count = 0)')
+    rep.rule('R15.4', 'pad discipline of hand-aligned value codecs (ContentFilterProperty, Property/BinaryProperty/Tag/DataHolder, qos Property/DataTag): every read_pad/write_pad(.., L, 4) has '
+                      'L = length of the value read/written immediately before on every path (0 after a 4-byte primitive or at entry), and no variable-length value is followed by another '
+                      'stream operation without a pad; reader and writer therefore skip/emit the same padding for any number of elements')
     rep.rule('R15.3', 'unknown parameters: ParameterList::read_from skips every parameter by its length and stops only at the sentinel; deserializers look parameters up by id')
     tot_t = tot_p = 0
     for cfg in CONFIGS:
@@ -145,6 +148,13 @@ def run(rep, facts, tier):
         t, p = run_config(rep, facts[cfg], cfg)
         tot_t += t
         tot_p += p
+        from rules import padrule
+        nb, npads = padrule.run_rule(rep, facts[cfg], 'R15.4', cfg)
+        rep.coverage_extra.setdefault('pad_codecs', {})[cfg] = {'functions': nb, 'pad_calls': npads}
+        if cfg == 'default':
+            rep.floor('R15.4', npads, 10, 'read_pad/write_pad calls in hand-aligned codecs (default features)')
+        else:
+            rep.floor('R15.4', npads, 26, 'read_pad/write_pad calls in hand-aligned codecs (security features)')
     # the same parameter in both feature configurations is one obligation
     seen = set()
     uniq_i, uniq_v = [], []
